@@ -666,11 +666,13 @@ pub fn unread_small_responses(tier: Tier) -> (u64, Vec<(String, String)>, Option
     // connections that are long gone - dropped by the idle timeout, reset, closed in the middle of a
     // request - must not block new ones: after several rounds of such endings under a small
     // connection limit a fresh connection is still served at once
-    for ending in ["idle-timeout", "reset", "close-mid-request"] {
+    for ending in ["idle-timeout", "reset", "close-mid-request", "stall-inside-oversized-body", "stall-inside-request"] {
         n += 1;
         crate::watchdog::working_on(format!("C16 socket: {} rounds of connections ending by {}, then a fresh one", 3, ending));
         let r = (|| -> Result<Option<String>, String> {
             let w = net::NetWorld::new(NetCfg { conn_limit: 2, ..Default::default() })?;
+            // clients that went silent keep their sockets open: it is the server that has to let go
+            let mut kept: Vec<net::NetClient> = vec![];
             for round in 0..3 {
                 let mut cs = vec![w.connect()?, w.connect()?];
                 for (i, c) in cs.iter_mut().enumerate() {
@@ -691,6 +693,19 @@ pub fn unread_small_responses(tier: Tier) -> (u64, Vec<(String, String)>, Option
                             c.abort(&w);
                         }
                     }
+                    "stall-inside-oversized-body" | "stall-inside-request" => {
+                        // header and part of the body, then silence with the socket open: the idle
+                        // timeout ends such a connection like any other
+                        let big = if ending == "stall-inside-oversized-body" { 5000 } else { 600 };
+                        let req = Req::store(op::SET, b"k", &vec![b'v'; big], 0, 0, 0).bytes();
+                        for c in cs.iter_mut() {
+                            let _ = c.step(&w, &req[..24 + 200]);
+                        }
+                        w.advance(61);
+                        for c in cs.iter_mut() {
+                            c.pump();
+                        }
+                    }
                     _ => {
                         let half = Req::store(op::SET, b"k", b"value", 0, 0, 0).bytes();
                         for c in cs.iter_mut() {
@@ -699,7 +714,11 @@ pub fn unread_small_responses(tier: Tier) -> (u64, Vec<(String, String)>, Option
                         }
                     }
                 }
-                drop(cs);
+                if ending.starts_with("stall") || ending == "idle-timeout" {
+                    kept.extend(cs);
+                } else {
+                    drop(cs);
+                }
                 w.settle();
             }
             let mut fresh = w.connect()?;
@@ -1201,7 +1220,7 @@ fn late_reader() -> (u64, Vec<(String, String)>, Option<String>) {
     // FIN); the first read only after the server has run - every response must still arrive, whole,
     // followed by a clean end of stream
     for &(size, gets) in &[(65_536usize, 2usize), (65_536, 6), (262_144, 4)] {
-        for ending in ["quit", "fin"] {
+        for ending in ["quit", "fin", "bad-magic"] {
             n += 1;
             let r = (|| -> Result<Option<String>, String> {
                 let w = net::NetWorld::new(NetCfg { item_limit: 1 << 20, ..Default::default() })?;
@@ -1218,6 +1237,13 @@ fn late_reader() -> (u64, Vec<(String, String)>, Option<String>) {
                 let expect = if ending == "quit" {
                     reqs.extend(Req::bare(op::QUIT).opaque(0x2ff).bytes());
                     gets + 1
+                } else if ending == "bad-magic" {
+                    // a request with a broken header behind the valid ones: the connection ends
+                    // there, what was answered before still arrives whole
+                    let mut bad = Req::bare(op::NOOP).opaque(0x2fe).bytes();
+                    bad[0] = 0x13;
+                    reqs.extend(bad);
+                    gets
                 } else {
                     gets
                 };
